@@ -1,6 +1,6 @@
 (** C03 -- wire codec lossless, matches the SCION format, never truncates silently:
     property theorems only. *)
-From Sci Require Import Wire.Codec Wire.Spec_C03 Wire.Proofs_C03 Wire.BitFieldProofs Wire.ChecksumProofs Wire.RoundTripProofs Wire.ChecksumVerify Wire.LengthProofs Wire.SpecAgreeProofs.
+From Sci Require Import Wire.Codec Wire.Spec_C03 Wire.Proofs_C03 Wire.BitFieldProofs Wire.ChecksumProofs Wire.RoundTripProofs Wire.ChecksumVerify Wire.LengthProofs Wire.SpecAgreeProofs Wire.EncodeLengthProofs Wire.AddrRoundTrip Wire.HeaderRoundTrip Wire.PacketRoundTrip Wire.StdPathRoundTrip Wire.PacketRoundTripStd.
 Local Open Scope N_scope.
 
 (** A model that cannot be represented on the wire is rejected: whenever the encoder's gate
@@ -119,8 +119,8 @@ Print Assumptions filled_checksum_verifies.
 
     Each layer: the encoder's field writes (in its write order, into ANY well-formed buffer of
     the layer's size, zeroed or not) followed by the decoder's view accessors give back the
-    model, and the buffer keeps its length.  The composed statement for a whole packet is
-    [decode_encode_partial]: what is missing is the placement of the layers inside the header
+    model, and the buffer keeps its length.  The composed statements are [decode_encode_header_partial] and [decode_encode_partial] (whole
+    raw / UDP packets over standard, empty and unsupported-type paths); for one-hop paths and SCMP what is missing is the placement of the layers inside the header
     buffer (on_suffix / on_sub offsets of address header, path meta, info and hop fields),
     the address header (ISD-AS split into two writes, host address copies) and the SCMP
     messages; these are decided by the correspondence check (model bytes = implementation
@@ -166,7 +166,7 @@ Print Assumptions decode_encode_path_meta_layer.
 
 (** UDP: the whole L4 layer -- the encoded datagram is accepted by the datagram view with the
     size it has, its Length field is the TRUE length as a number, and it decodes to the model *)
-Theorem decode_encode_partial :
+Theorem decode_encode_udp_layer :
   forall (h : pkt_hdr) (sp dp : N) (d : bytes) (hs : N) (al_host al : bool) (buf : bytes),
     bytes_ok buf = true -> bytes_ok d = true -> blen buf = UdpDatagram_HEADER_SIZE_BYTES + blen d ->
     sp < 65536 -> dp < 65536 -> UdpDatagram_HEADER_SIZE_BYTES + blen d <= 65535 ->
@@ -176,7 +176,7 @@ Theorem decode_encode_partial :
     /\ udp_length b' = Ok (UdpDatagram_HEADER_SIZE_BYTES + blen d)
     /\ decode_udp b' = Ok (PL_Udp sp dp d).
 Proof. exact udp_roundtrip_lemma. Qed.
-Print Assumptions decode_encode_partial.
+Print Assumptions decode_encode_udp_layer.
 
 (** The length fields READ BACK from the bytes of an encoded packet are truthful, as numbers:
     HdrLen * 4 is the header size, PayloadLen is the number of payload bytes, and for UDP the
@@ -250,3 +250,97 @@ Proof.
   refine (conj spec_common_agrees (conj spec_meta_agrees (conj spec_info_agrees (conj spec_hop_agrees spec_udp_agrees)))).
 Qed.
 Print Assumptions spec_decode_agrees_partial.
+
+(** Every packet model the encoder accepts -- every address kind, empty / one-hop / standard
+    (1..3 segments, 1..63 hops each) / unsupported path, raw / UDP / all ten SCMP payload
+    kinds -- encodes to EXACTLY the announced number of bytes ([required_size]); for both
+    memory alignments of the checksummed data. *)
+Theorem encode_length :
+  forall (p : packet) (al_host al : bool), model_wf p = true -> packet_wire_valid p = true ->
+    blen (encode_packet_al p al_host al) = packet_size p.
+Proof. intros p alh al. exact (encode_packet_blen_all p alh al). Qed.
+Print Assumptions encode_length.
+
+(** The SCMP message (any of the ten kinds) produced by the repaired encoder carries a checksum
+    that verifies by RFC 1071 over the SCION pseudo header. *)
+Theorem encoded_scmp_checksum_verifies :
+  forall (h : pkt_hdr) (m : scmp_msg) (hs : N) (al_host al : bool),
+    addr_ok h -> scmp_wf m = true -> payload_wire_valid (PL_Scmp m) = true -> scmp_size m hs <= 65535 ->
+    checksum_verifies h 202 (encode_payload h (PL_Scmp m) hs al_host al (zeros (scmp_size m hs))) = true.
+Proof. exact scmp_checksum_verifies. Qed.
+Print Assumptions encoded_scmp_checksum_verifies.
+
+(** Address header layer of the round trip: the two ISD-AS numbers (written as ISD 16 bits + AS
+    48 bits, read back as one 64-bit field) and the two host addresses (copied at offsets 16 and
+    16 + dst length, decoded by the type/length nibble the common header carries) come back as
+    the model's values -- every accepted address kind: IPv4, IPv6, service, unknown types with
+    4/8/12/16 bytes. *)
+Theorem decode_encode_address_header_layer :
+  forall (h : pkt_hdr) (buf : bytes),
+    h_dst_ia h < 2 ^ 64 -> h_src_ia h < 2 ^ 64 ->
+    host_wf (h_dst_host h) = true -> host_wf (h_src_host h) = true ->
+    host_wire_valid (h_dst_host h) = true -> host_wire_valid (h_src_host h) = true ->
+    bytes_ok buf = true -> addr_size h <= blen buf ->
+    let b' := encode_addr h buf in
+    let dl := host_size (h_dst_host h) in let sl := host_size (h_src_host h) in
+    blen b' = blen buf
+    /\ rd b' AddressHeader_DST_IA_RNG 64 = Ok (h_dst_ia h) /\ rd b' AddressHeader_SRC_IA_RNG 64 = Ok (h_src_ia h)
+    /\ host_addr_decode (host_nibble (h_dst_host h)) (sub b' 16 (16 + dl)) = Some (h_dst_host h)
+    /\ host_addr_decode (host_nibble (h_src_host h)) (sub b' (16 + dl) (16 + dl + sl)) = Some (h_src_host h).
+Proof. exact address_header_roundtrip_lemma. Qed.
+Print Assumptions decode_encode_address_header_layer.
+
+(** Composition, header: the whole SCION header written by [encode_header] -- common header,
+    address header (every accepted address kind), path -- decodes back to the model, for the
+    standard path (1..3 segments, every accepted hop count; the encoder's and the decoder's
+    loops over the info / hop field arrays), the empty path and unsupported path types.
+    PARTIAL: the one-hop path (its three fixed sub-fields are proved as layers) is not composed. *)
+Theorem decode_encode_header_partial :
+  forall (h : pkt_hdr) (psize : N),
+    header_wf h = true -> header_wire_valid h = true -> psize < 65536 ->
+    (match h_path h with DP_OneHop _ _ _ => False | _ => True end) ->
+    decode_header (encode_header h psize (zeros (header_size h))) = Ok h.
+Proof.
+  intros h psize W V Hp Hk. destruct (h_path h) as [ci ch segs|i a b| |pt d] eqn:E.
+  - exact (proj1 (header_roundtrip_std h psize ci ch segs W V Hp E)).
+  - destruct Hk.
+  - apply header_roundtrip_simple_paths; try assumption. rewrite E. exact I.
+  - apply header_roundtrip_simple_paths; try assumption. rewrite E. exact I.
+Qed.
+Print Assumptions decode_encode_header_partial.
+
+(** Composition, packet -- the round trip of the property: for every accepted raw or UDP packet
+    over a standard, empty or unsupported-type path, the decoder applied to the encoder's
+    bytes returns exactly the model and no trailing bytes: constructor (header layout from the
+    bytes, sizes), header with addresses and path, payload, UDP datagram with its length and
+    checksum fields; both memory alignments of the checksummed data.
+    PARTIAL: one-hop paths and SCMP payloads are covered layer by layer (decode_encode_*_layer,
+    encode_length, length_fields_truthful, encoded_*checksum_verifies) and by the correspondence
+    check, not by this composed statement. *)
+Theorem decode_encode_partial :
+  forall (p : packet) (al_host al : bool),
+    model_wf p = true -> packet_wire_valid p = true ->
+    (match h_path (p_hdr p) with DP_OneHop _ _ _ => False | _ => True end) ->
+    match p_pl p with
+    | PL_Raw _ => decode_packet 0 (encode_packet_al p al_host al) = Ok (p, [])
+    | PL_Udp _ _ _ => decode_packet 1 (encode_packet_al p al_host al) = Ok (p, [])
+    | PL_Scmp _ => True
+    end.
+Proof.
+  intros p alh al W V Hk. destruct (h_path (p_hdr p)) as [ci ch segs|i a b| |pt d] eqn:E.
+  - exact (packet_roundtrip_std p alh al ci ch segs W V E).
+  - destruct Hk.
+  - apply packet_roundtrip_simple; try assumption. rewrite E. exact I.
+  - apply packet_roundtrip_simple; try assumption. rewrite E. exact I.
+Qed.
+Print Assumptions decode_encode_partial.
+
+(** non-vacuity: a UDP packet over a two-segment standard path between an IPv4 and a service address *)
+Example decode_encode_example :
+  let hop := mkHF 1 63 2 5 [1; 2; 3; 4; 5; 6] in
+  let p := mkP (mkH 184 703710 17 281105609588992 844424930131969 (HA_V4 [10; 0; 0; 1]) (HA_Svc 2)
+                    (DP_Std 1 2 [mkSeg (mkIF 1 77 1700000000) [hop; hop]; mkSeg (mkIF 0 78 1700000001) [hop]]))
+               (PL_Udp 30041 53 [1; 2; 3; 4; 5]) in
+  model_wf p = true /\ packet_wire_valid p = true /\ decode_packet 1 (encode_packet p) = Ok (p, [])
+  /\ spec_decode 1 (encode_packet p) = Some p /\ spec_checksum_ok 1 (encode_packet p) = true.
+Proof. vm_compute. repeat split; reflexivity. Qed.
